@@ -27,6 +27,10 @@ After EVERY write operation (add_*, update_*, rejected update, install_adf*):
   empty branches   update_* dictionaries carrying EMPTY sub-dictionaries at every nesting level (empty class / species / charge /
                    transition branch; first, middle, last in dict order) next to non-empty ones: every non-empty key must be
                    written, nothing else touched (a clean exception is counted as refusal and not judged);
+  non-finite       inf / -inf / nan in an axis, a table or a scalar (wavelength, reference values) of every family, through add_*,
+                   update_* (next to finite entries) and install_* (ADF file with one INF / NAN field), written into files
+                   that already hold other keys: accepted => bit-exact read-back (canonical nan compared by bits); refused by
+                   an exception => its own entry old or new and readable, every other stored key unchanged;
   install_files    every front-end also through install_files() with lower / upper / mixed-case configuration keys inside the
                    same last-write-wins histories; a call that returns normally without reaching repository.update_* while the
                    direct front-end installs keys from the same arguments is a violation;
@@ -94,7 +98,7 @@ REQUIRED = {"readback": 1000, "others_untouched": 8000, "never_written": 8000, "
             "rejected_intact": 600, "install_call": 40, "install_readback": 60, "install_download_fetch": 25,
             "install_download_cache_hit": 15, "rewrite_one_component": 150, "hostile_spelling_probe": 1500,
             "install_cross_key_distinct": 150, "update_with_empty_branches": 100, "empty_branch": 200,
-            "install_files_key_upper": 8, "install_files_key_mixed": 8}
+            "install_files_key_upper": 8, "install_files_key_mixed": 8, "nonfinite_write": 60}
 
 # ----------------------------------------------------------------------------------------------------------------
 # independent species table: variable name in cherab.core.atomic.elements -> (symbol, Z)
@@ -345,6 +349,54 @@ def _mutate_one(rng, kind, data):
             flat[i] = v if v != flat[i] else v * 1.5 + 1.0
     new[f] = a.tolist() if dim else float(a)
     return new, "%s:%s" % (mode, f)
+
+
+def _inject_nonfinite(rng, kind, data):
+    """Copy of data with one non-finite number ('inf' / '-inf' / 'nan' token) in a random axis, table or scalar."""
+    new = copy.deepcopy(data)
+    f, dim = FIELDS[kind][int(rng.integers(len(FIELDS[kind])))]
+    tok = _pick(rng, ["inf", "-inf", "nan"])
+    if dim == 0:
+        new[f] = tok
+    else:
+        lst = new[f]
+        while isinstance(lst[0], list):
+            lst = lst[int(rng.integers(len(lst)))]
+        lst[int(rng.integers(len(lst)))] = tok
+        if rng.random() < 0.3:
+            lst[int(rng.integers(len(lst)))] = _pick(rng, ["inf", "-inf", "nan"])
+    return new
+
+
+def _inject_install_nonfinite(rng, op):
+    new = copy.deepcopy(op)
+    kind = op["kind"]
+    tok = _pick(rng, ["inf", "-inf", "nan"])
+
+    def put(lst):
+        while isinstance(lst[0], list):
+            lst = lst[int(rng.integers(len(lst)))]
+        lst[int(rng.integers(len(lst)))] = tok
+
+    if kind.startswith("adf11"):
+        put(_pick(rng, new["blocks"])[1])
+    elif kind == "adf15":
+        put(_pick(rng, new["blocks"])[_pick(rng, ["pec", "pec", "ne", "te"])])
+    elif kind == "adf12":
+        b = _pick(rng, new["blocks"])
+        w = _pick(rng, ["eb", "qeb", "ti", "qti", "ni", "qni", "z", "qz", "b", "qb", "qref"])
+        if w == "qref":
+            b["qref"] = tok
+        else:
+            put(b[w])
+    else:
+        w = _pick(rng, ["eb", "dt", "sv", "sv", "tt", "svt", "svref", "tref", "eref", "dref"])
+        if isinstance(new[w], list):
+            put(new[w])
+        else:
+            new[w] = tok
+    new["nonfinite"] = True
+    return new
 
 
 def _empty_branches(rng, pools, items):
@@ -716,6 +768,7 @@ def gen_case(rng, tier):
     p_bad = {"invalid": 0.35, "install": 0.05}.get(cls, 0.08)
     p_inst = {"install": 0.45, "mixed": 0.08, "isotopes": 0.05}.get(cls, 0.0)
     p_rw = {"overwrite": 0.45, "install": 0.25}.get(cls, 0.15)      # overwrite differing in exactly one component
+    p_nf = {"extreme": 0.2, "invalid": 0.12}.get(cls, 0.05)         # one non-finite number in the written data
     ops = []
     hist, inst_hist = [], []       # what valid operations have written so far (generation-time bookkeeping only)
 
@@ -731,9 +784,42 @@ def gen_case(rng, tier):
                 op = _mutate_install(rng, _pick(rng, inst_hist))
             else:
                 op = _install_op(rng, pools, big)
+            if (op["kind"] != "adf15" or op["blocks"]) and rng.random() < 2 * p_nf:
+                ops.append(_inject_install_nonfinite(rng, op))      # same file with one non-finite number
+                continue
             if op["kind"] != "adf15" or op["blocks"]:
                 inst_hist.append(op)
             ops.append(op)
+            continue
+        if rng.random() < p_nf:
+            # non-finite numbers written into files that already hold other keys: a stored key itself, or a sibling
+            if hist and rng.random() < 0.7:
+                prev = _pick(rng, hist)
+                fam = prev["fam"]
+                key = copy.deepcopy(prev["key"]) if rng.random() < 0.5 else pools.key(fam)
+                data = prev["data"] if rng.random() < 0.5 else _data(rng, FAM[fam][0], vclass, big)
+            else:
+                fam = _pick(rng, fams)
+                key, data = pools.key(fam), _data(rng, FAM[fam][0], vclass, big)
+            item = {"fam": fam, "key": key, "data": _inject_nonfinite(rng, FAM[fam][0], data), "nonfinite": True}
+            ck0 = (fam, canon_key(fam, key))
+            hist[:] = [h for h in hist if (h["fam"], canon_key(h["fam"], h["key"])) != ck0]     # state unknown at generation time
+            if rng.random() < 0.5:
+                ops.append({"op": "add", "fn": FAM[fam][1], "fam": fam, "key": key, "data": item["data"], "nonfinite": True})
+            else:
+                items, seen = [item], {ck0}
+                for _j in range(_ri(rng, 0, 2)):
+                    f2 = _pick(rng, UPD_FAMS[FAM[fam][2]])
+                    k2 = pools.key(f2)
+                    ck = (f2, canon_key(f2, k2))
+                    if ck in seen:
+                        continue
+                    seen.add(ck)
+                    items.append({"fam": f2, "key": k2, "data": _data(rng, FAM[f2][0], vclass, big)})
+                    hist[:] = [h for h in hist if (h["fam"], canon_key(h["fam"], h["key"])) != ck]
+                if rng.random() < 0.5:
+                    items.reverse()
+                ops.append({"op": "update", "fn": FAM[fam][2], "items": items, "nonfinite": True})
             continue
         if hist and rng.random() < p_rw:
             # re-write stored keys with data that differ from the stored ones in exactly one component
@@ -948,6 +1034,25 @@ def fixed_cases(tier):
                             "empties": [{"fam": efam, "key": ek, "depth": depth, "pos": pos}]})
     from vf.core import jsonable as _js
     cases.append(_js({"cls": "mixed", "repo_exists": True, "repo_name": "repository", "ops": ops, "probes": []}))
+    # non-finite numbers written next to stored keys of the same file, every family, add_* and update_*
+    ops = []
+    for n, fam in enumerate(FAMILIES):
+        kind = FAM[fam][0]
+        fields = [f for f in PATH_FIELDS[kind] if f != "CLASS"]
+        last = fields[-1]
+        k1 = {f: copy.deepcopy(base_key[f]) for f in fields}
+        sib = lambda j: dict(copy.deepcopy(k1), **{last: [3 + j, 2] if last == "tr" else base_key[last] + j})
+        ops.append(add(fam, sib(0), _data(rng, kind, "normal")))
+        ops.append(add(fam, sib(1), _data(rng, kind, "normal")))
+        for j, via in ((2, "add"), (0, "update"), (1, "add")):
+            d = _inject_nonfinite(rng, kind, _data(rng, kind, "normal"))
+            if via == "add":
+                ops.append(dict(add(fam, sib(j), d), nonfinite=True))
+            else:
+                ops.append({"op": "update", "fn": FAM[fam][2], "nonfinite": True,
+                            "items": [{"fam": fam, "key": sib(3), "data": _data(rng, kind, "normal")},
+                                      {"fam": fam, "key": sib(j), "data": d, "nonfinite": True}]})
+    cases.append(_js({"cls": "extreme", "repo_exists": True, "repo_name": "repository", "ops": ops, "probes": []}))
     # rejected updates in the middle of a history, every invalidity kind on the beam families
     ops = [add("beam_stopping", {"beam": "deuterium", "tgt": "carbon", "q": 6},
                {"e": [1e3, 1e4], "n": [1e19], "t": [10.0, 100.0, 1000.0], "sen": [[1e-14], [2e-14]], "st": [1.0, 2.0, 3.0],
@@ -1706,9 +1811,45 @@ def _guarded(fn, *a, **kw):
     return err, ev
 
 
+_NF_TOKENS = {"inf": float("inf"), "-inf": float("-inf"), "nan": float("nan")}
+
+
+def _decode_nonfinite(o):
+    """Cases carry non-finite numbers as the strings 'inf' / '-inf' / 'nan' (strict JSON); turn them into floats."""
+    if isinstance(o, str):
+        return _NF_TOKENS.get(o, o)
+    if isinstance(o, list):
+        return [_decode_nonfinite(x) for x in o]
+    if isinstance(o, dict):
+        return {k: _decode_nonfinite(v) for k, v in o.items()}
+    return o
+
+
+def _refused(ctx, H, fn, written, why):
+    """A write that was refused by raising: its own entries hold their old or their new content and stay readable,
+    every other stored key is unchanged.  -> False if the history must stop."""
+    for fam, ck, val in written:
+        st, got, _ = H.read_key(fam, ck)
+        old = H.lookup(fam, ck)
+        kind = FAM[fam][0]
+        ctx.mon("refused_own_entry")
+        if st == "ok" and val is not None and _value_equal(kind, got, val) is None:
+            H.model[fam][ck] = val
+        elif (st == "ok" and old is not None and _value_equal(kind, got, old) is None) or (st == "missing" and old is None):
+            pass
+        else:
+            ctx.viol("%s:refused-write-corrupts-its-entry:%s%s" % (fn, fam, ":" + type(got).__name__ if st == "error" else ""),
+                     "after %s raised (%s) an entry of that call holds neither its old nor its new content (%s)"
+                     % (fn, why, st if st != "error" else "%s: %s" % (type(got).__name__, str(got)[:120])), family=fam, stored_key=repr(ck))
+            H.dead = True
+            return False
+    return H.check_others(fn, {(w[0], w[1]) for w in written}, tag="refused-write-changes-other-key", mon="refused_intact")
+
+
 def run_case(case, ctx):
     if "repo" not in _S:
         worker_init(ctx)
+    case = _decode_nonfinite(case)
     ctx.cls(case["cls"])
     home = ctx.home
     base = tempfile.mkdtemp(prefix="vfc06_")
@@ -1779,6 +1920,15 @@ def _run_history(case, ctx, H, repo_path, adas_dir, home):
             f, a, kw = _prep_add(fam, op["key"], op["data"], repo_path)
             err, ev = _guarded(f, *a, **kw)
             outside = _judge_audit(ctx, H, fn, ev, repo_path, home)
+            if op.get("nonfinite"):
+                ctx.mon("nonfinite_write")
+                ctx.mon("nonfinite_%s:%s" % ("refused" if err is not None else "accepted", fam))
+            if err is not None and op.get("nonfinite"):
+                # non-finite numbers: accepted => bit-exact read-back (below); refused => nothing damaged
+                ctx.mon("nonfinite_refused")
+                if not _refused(ctx, H, fn, [(fam, ck, _expected(FAM[fam][0], op["data"]))], "non-finite values"):
+                    return
+                continue
             if err is not None:
                 ctx.viol("%s:valid-write-raises:%s" % (fn, type(err).__name__),
                          "%s raised %s for a valid call (documented signature and rate dictionary): %s" % (fn, type(err).__name__, str(err)[:200]),
@@ -1814,25 +1964,19 @@ def _run_history(case, ctx, H, repo_path, adas_dir, home):
                         extra.append(ek)       # an empty branch writes nothing: that key keeps its state
             err, ev = _guarded(getattr(_S["repo"], fn), rates, repo_path)
             outside = _judge_audit(ctx, H, fn, ev, repo_path, home)
-            if err is not None and empties:
-                # refusing a dictionary with empty branches by raising is not judged; damage to stored keys is
-                ctx.mon("empty_branch_refused")
-                ctx.skip("%s raised %s for an update dictionary with empty branches (refusal, not judged)" % (fn, type(err).__name__))
-                for fam, ck, val in written:
-                    st, got, _ = H.read_key(fam, ck)
-                    old = H.lookup(fam, ck)
-                    kind = FAM[fam][0]
-                    if st == "ok" and _value_equal(kind, got, val) is None:
-                        H.model[fam][ck] = val
-                    elif (st == "ok" and old is not None and _value_equal(kind, got, old) is None) or (st == "missing" and old is None):
-                        pass
-                    else:
-                        ctx.viol("%s:refused-update-corrupts-its-entry:%s" % (fn, fam),
-                                 "after %s raised on a dictionary with empty branches an entry holds neither its old nor its new content" % fn,
-                                 family=fam, stored_key=repr(ck))
-                        H.dead = True
-                        return
-                if not H.check_others(fn, wkeys, tag="refused-update-changes-other-key"):
+            if op.get("nonfinite"):
+                ctx.mon("nonfinite_write")
+                for fam_nf in sorted({it["fam"] for it in op["items"] if it.get("nonfinite")}):
+                    ctx.mon("nonfinite_%s:%s" % ("refused" if err is not None else "accepted", fam_nf))
+            if err is not None and (empties or op.get("nonfinite")):
+                # refusing empty branches / non-finite numbers by raising is not judged; damage to stored keys is
+                if empties:
+                    ctx.mon("empty_branch_refused")
+                if op.get("nonfinite"):
+                    ctx.mon("nonfinite_refused")
+                ctx.skip("%s raised %s for an update dictionary with %s (refusal, not judged)" % (
+                    fn, type(err).__name__, "empty branches" if empties else "non-finite values"))
+                if not _refused(ctx, H, fn, written, "empty branches" if empties else "non-finite values"):
                     return
                 continue
             if err is not None:
@@ -2012,6 +2156,8 @@ def _install_cross_key(op, ctx, H, fn, written):
                 a_out, b_out = np.sort(a_out.reshape(-1)), np.sort(b_out.reshape(-1))
                 if not (a_in.size == b_in.size == a_out.size == b_out.size):
                     continue
+                if not (np.all(np.isfinite(a_in)) and np.all(np.isfinite(b_in))):
+                    continue            # order relations are undefined for nan / saturate for inf
                 ctx.mon("install_cross_key")
                 if np.any(a_in != b_in):
                     ctx.mon("install_cross_key_distinct")
@@ -2031,6 +2177,9 @@ def _do_install(op, ctx, H, repo_path, adas_dir, home, n_file):
     kind = op["kind"]
     fn = "install_" + kind
     ctx.mon("op_install")
+    if op.get("nonfinite"):
+        ctx.mon("nonfinite_write")
+        ctx.mon("nonfinite_install")
     if kind == "adf15" and not op["blocks"]:
         ctx.skip("empty adf15 file")
         return True
@@ -2110,10 +2259,11 @@ def _do_install(op, ctx, H, repo_path, adas_dir, home, n_file):
         # parsing problems belong to C08; C06 only requires that a failed install damaged nothing
         ctx.skip("%s raised %s (parser / install failure, judged by C08)" % (fn, type(err).__name__))
         ctx.mon("install_raised")
+        own = []
         for c in rec.calls:
-            for fam, ck, _ in (c["items"] or []):
-                H.resync(fam, ck)
-        return H.check_others(fn, set(), tag="failed-install-changes-other-key")
+            for fam, ck, val in (c["items"] or []):
+                own = [w for w in own if (w[0], w[1]) != (fam, ck)] + [(fam, ck, val)]
+        return _refused(ctx, H, fn, own, "install raised %s" % type(err).__name__)
     if not rec.calls:
         ctx.skip("argument recorder saw no repository.update_* call from %s" % fn)
         return True
